@@ -255,7 +255,21 @@ def run_C02(ctx, proof_ok):
 
 
 def run_C03(ctx, proof_ok):
-    return run_diff(ctx, 3, sel_second, budget(ctx.tier, 250, 4000), budget(ctx.tier, 300, 5000))
+    res = run_diff(ctx, 3, sel_second, budget(ctx.tier, 250, 4000), budget(ctx.tier, 300, 5000))
+    # explicit pair lists "as produced by Sequence.hessian", non-linear parameter expressions
+    import seqc
+
+    r = lib.rng(303)
+    cases = [seqc.gen_seq_case(r, maxlen=7) for _ in range(budget(ctx.tier, 120, 3000))]
+    n, dis = seqc.compare_sequence(cases, epg())
+    for d in dis:
+        probs = [p for p in d.get("problems", []) if str(p[0]).startswith("hessian")]
+        if probs:
+            ctx.violations.append(dict(d, problems=probs))
+    res["evaluations"] += n
+    res["distribution"]["sequence_hessian_checks"] = n
+    res["rule"] += " || Sequence.hessian on random sequences with expression-valued parameters vs the jet specification"
+    return res
 
 
 def run_C19(ctx, proof_ok):
@@ -271,6 +285,52 @@ def run_C19(ctx, proof_ok):
     res["rule"] += " || subset search: every consistent program is re-run with each single variable activated alone, with " \
                    "all declarations removed, and with variables renamed; signals compared bit-for-bit, columns to 1e-12"
     return res
+
+
+def run_C11(ctx, proof_ok):
+    import seqc
+
+    E = epg()
+    r = lib.rng(11)
+    n1, dis1, trees = seqc.compare_expr(r, budget(ctx.tier, 300, 6000))
+    cases = load_corpus("C11") + [seqc.gen_seq_case(r, maxlen=budget(ctx.tier, 7, 12)) for _ in range(budget(ctx.tier, 150, 3000))]
+    n2, dis2 = seqc.compare_sequence(cases, E)
+    raised = collections.Counter()
+    for d in dis1 + dis2:
+        if d["kind"] == "sequence-raised":
+            raised[d["error"][:70]] += 1
+            if "need at least one array" in d["error"]:
+                continue  # no variable of the sequence requested: nothing to stack (harness request)
+            d = dict(d, problems=[("raised: " + d["error"][:90],)])
+        ctx.violations.append(d)
+    kinds = collections.Counter()
+    for c in cases:
+        for o in c["program"]:
+            kinds[o["op"] + ("/kw" if o.get("kw") else "")] += 1
+    nontriv = {case_hash(c) for c in cases if len({o["op"] for o in c["program"]}) >= 2}
+    nontriv |= {case_hash({"t": t}) for t in trees if len(str(t)) > 40}
+    return {"evaluations": n1 + n2, "distinct_nontrivial": len(nontriv),
+            "rule": "correspondence `expr`: random expression trees (depth<=4) over + - * / ** neg abs log exp, values inside the "
+                    "domain; value, every first derivative, one mixed second derivative and one substitution compared with the Lean "
+                    "model SE (table-driven derive with the regenerated table) || search: random Sequences of virtual operators whose "
+                    "arguments are random expressions (positional or keyword passing): signal vs hand-built concrete operators, "
+                    "jacobian/hessian vs the jet specification with parameter jets from the harness's own forward-mode AD",
+            "samples": [lib.jsonable(trees[0] if trees else None), lib.jsonable(cases[0])],
+            "distribution": {"virtual_ops": dict(kinds), "expr_checks": n1, "sequence_checks": n2, "sequence_raised": dict(raised)}}
+
+
+def replay_seq(ctx, data):
+    import seqc
+
+    inp = data["input"]
+    if "expr" in inp:
+        print("replay: expression case", inp)
+        return 1
+    _, dd = seqc.compare_sequence([inp], epg())
+    for d in dd:
+        print("still disagrees:", d["kind"], d.get("problems", d.get("error")))
+    print("replay:", "VIOLATION reproduced" if dd else "no disagreement any more")
+    return 1 if dd else 0
 
 
 def replay_diff(ctx, data):
@@ -372,5 +432,16 @@ for _p, _run, _tie in (("C02", run_C02, TIE_OP + TIE_D1), ("C03", run_C03, TIE_O
         "replay": replay_diff,
         "partial": DIFF_PARTIAL,
     }
+
+PROPS["C11"] = {
+    "lean_modules": ["EpgVerif.Props.C11"],
+    "tie": [],
+    "audit": "EpgVerif/Audit/C11.lean",
+    "run": run_C11,
+    "replay": replay_seq,
+    "theorems_hint": ["expression_derive_exact", "subst_eval", "virtual_table_wellbound", "mathTable_ok"],
+    "partial": ["`sequence_eq_concrete` (Sequence = hand-built concrete list) and the chain rule through VirtualOperator.build are "
+                "exercised by the search, not proved; arrays as constants are evaluated element-wise by numpy (modelled as scalars)"],
+}
 
 NOT_CLAIMED = {}
